@@ -301,8 +301,8 @@ def run(ctx):
         'src/pharmpy/model/external/nonmem/records/grammars/omega_record.lark')
     finding_probes(ctx)
     reg = sorted((VERIF / 'regress' / 'C04').glob('*.json'))
-    nlay = 120 if ctx.tier == 'quick' else 1200
-    nrv = 72 if ctx.tier == 'quick' else 450
+    nlay = 198 if ctx.tier == 'quick' else 2400
+    nrv = 120 if ctx.tier == 'quick' else 800
     per = 6
     tasks = [(ctx.rng.getrandbits(48), per) for _ in range(nlay // per)]
     rvtasks = [(ctx.rng.getrandbits(48), 3) for _ in range(nrv // 3)]
